@@ -24,7 +24,15 @@ harness, standing in for the reactor, swallows that exception and the history
 goes on); with the `companion` knob a second live ClientService built from the
 SAME application factory object, with its own endpoint, retry table and
 history model, runs on the same clock and the tape alternates between the two
-services (both models are audited after every step).
+services (both models are audited after every step); with the `failure_kinds`
+knob a failing attempt fails in one of several ways (refused, name lookup,
+timeout, an application-defined exception, ConnectingCancelledError, a
+CancelledError errbacked by the endpoint, or the endpoint abandoning its own
+attempt by cancelling the Deferred it handed out) - each is a failed attempt
+for the retry policy and for every failAfterFailures countdown; the
+`cancel_style` knob chooses what the endpoint's canceller does when its
+Deferred is cancelled (nothing, or errback with ConnectingCancelledError /
+CancelledError as real endpoints do).
 
 Oracle after every step (written from the statement and the public docs):
 open connections + attempts in progress <= 1; every retry timer's delay ==
@@ -38,12 +46,11 @@ soon as it is; nothing raises - in particular no automat NoTransition
 ("event-rejected", witness input@state), including ones swallowed by the
 attempt's Deferred chain.
 
-The predicted prepareConnection defects (DESIGN section 8) each get their own
+The predicted prepareConnection defects (DESIGN section 8; known findings, not
+repaired, listed in known_findings.json) each get their own
 signature; with `avoid_known` (3 of 4 runs) the hook never rejects and
 nothing is dropped or stopped while a prepareConnection Deferred is pending.
 """
-import os
-
 from automat import NoTransition
 from zope.interface import implementer
 
@@ -59,6 +66,11 @@ from detsim.sim import Violation
 
 ID = "C58"
 REENTRANT_ENABLED = False
+# Module-level knobs (no environment switches):
+AVOID_KNOWN_ALWAYS = False          # True: every run avoids the preconditions of the known prepareConnection findings (not repaired; used for mutant runs)
+JUDGE_STOP_BEFORE_START_P = 0.25     # share of the extended runs in which stopService() on a service that was never started must resolve
+                                    # the whenConnected Deferreds handed out so far (genuine defect of the tree as first examined, REPAIRED in /repo
+                                    # edc5991; 0.0 = no verdict, only for dev-time comparison; see ASSUMPTIONS and the last MUTANTS entry)
 ENGINE = "clock"
 LEVEL = "exploration"
 TECHNIQUE = ("deterministic simulation: seeded start/stop/whenConnected/attempt-outcome/drop/prepareConnection/clock histories "
@@ -78,14 +90,23 @@ RULE = ("run = one ClientService (prepareConnection mode none/sync/deferred/mixe
         "non-monotonic, repeated delays) and, with `callback_restart`, callbacks of whenConnected/stopService Deferreds call startService(); "
         "with `app_raises` the application protocol's connectionLost raises in 40% of the losses; with `companion` (35% of the extended runs) a second "
         "live ClientService sharing the application factory object (own endpoint, own drawn retry table, own model, same clock) takes 45% of the "
-        "operations and both models are checked after every step; "
+        "operations and both models are checked after every step; with `failure_kinds` (60% of the extended runs) a failing attempt draws how it fails "
+        "(refused / DNS / timeout / application-defined / ConnectingCancelledError / CancelledError errbacked by the endpoint / the endpoint cancels its "
+        "own pending Deferred), and `cancel_style` draws what the endpoint's canceller does (silent / errback ConnectingCancelledError / errback CancelledError); "
+        "a whenConnected Deferred that fails must fail with the stop's CancelledError or, at its limit, with the failure of the attempt that used the limit up; "
         "non-trivial = at least 2 connection attempts AND (a retry timer fired, an established connection dropped, or stopService found a connection or attempt)")
 ASSUMPTIONS = ["operations are issued from outside Deferred callbacks, except startService() in runs with the `callback_restart` knob (a None-returning input, which automat accepts "
                "while another input is being processed) and, in runs with the disabled `reentrant` knob, stopService()/whenConnected() from a whenConnected callback",
                "a whenConnected Deferred cancelled by a stop may observe the service already started again by a callback that ran earlier in the same cascade",
                "any non-negative retry delay is legal, including exactly 0 (the retry then happens as soon as the clock runs its due calls)",
                "a dropped established connection counts as the first consecutive failure for the retry policy (policy(1)), as documented for retryPolicy's argument",
-               "whenConnected Deferreds registered on a service that was never started are not required to fail when stopService is called on it",
+               "whenConnected Deferreds registered on a service that was never started are judged when stopService is called on it in the share "
+               "JUDGE_STOP_BEFORE_START_P = 0.25 of the extended runs (read literally the statement covers that history; the tree as first examined left such a "
+               "Deferred pending - Init --stop--> Stopped did not cancel the waiters - genuine defect, REPAIRED in /repo edc5991, see the last MUTANTS entry; a "
+               "violation is reported as waiter-in-time:stopped-before-start; with the knob at 0.0 the history gets no verdict, which is only for dev-time comparison)",
+               "an attempt that ends with CancelledError / ConnectingCancelledError while nobody stopped the service (the endpoint gave up by itself) is a "
+               "failed attempt like any other: the retry policy and every failAfterFailures countdown count it; a limited whenConnected Deferred may "
+               "therefore legally fail with CancelledError while the service is running, if that is the failure of the attempt that used up its limit",
                "whenConnected Deferreds registered while a stop is in progress and followed by startService before the stop completes wait for the next connection",
                "a connection being closed by the prepareConnection hook itself is not counted as open",
                "an exception raised by the application protocol's own connectionLost is the application's fault and is swallowed by the harness the way a "
@@ -105,6 +126,13 @@ DELAYS = [0.5, 1.0, 2.0, 4.0]
 
 class AppError(Exception):
     """Raised by the application protocol's own connectionLost (a fault of the application, not of the service)."""
+
+
+class EndpointError(Exception):
+    """An application-defined way for a connection attempt to fail."""
+
+
+GAVE_UP = "gave-up"   # the attempt's Deferred was cancelled by the endpoint itself and made its own CancelledError
 
 
 class App(Protocol):
@@ -229,7 +257,7 @@ def run(sim):
 def _run(sim):
     prepare_mode = sim.draw_choice(["none", "sync", "deferred", "mixed"], "prepare_mode")
     nops = sim.draw_int(8, 60 * sim.depth, "nops")
-    avoid = sim.draw_bool(0.75, "avoid_known") or bool(os.environ.get("VERIF_C58_AVOID_KNOWN"))
+    avoid = sim.draw_bool(0.75, "avoid_known") or AVOID_KNOWN_ALWAYS
     close_on_reject = sim.draw_bool(0.5, "close_on_reject")
     # Fifth draw: gate of the later-added families (0 = none of them, so that older tapes keep their meaning).
     extended = sim.draw_bool(0.65, "extended")
@@ -238,6 +266,9 @@ def _run(sim):
     reentrant = False
     app_raises = False
     companion_delays = None
+    failure_kinds = False
+    cancel_style = "silent"
+    judge_unstarted = False
     if extended:
         # retry policy table of this run: any non-negative delay is legal, in particular exactly zero (int or float),
         # tables that are not monotonic, and tables with repeated entries
@@ -258,10 +289,21 @@ def _run(sim):
         # with its own endpoint, retry table and model, on the same clock; the tape alternates between the two
         if sim.draw_bool(0.35, "companion"):
             companion_delays = [sim.draw_choice([d, 0, 0.0, 0.25, 3], "delayB%d" % i) for i, d in enumerate([1.5, 0.75, 5.0, 2.5])]
+        # an attempt fails in one of several ways: refused, name lookup, timeout, an application-defined exception, the
+        # endpoint giving up on its own attempt (it cancels its own pending Deferred, as a timeout wrapper does, or
+        # errbacks with CancelledError / ConnectingCancelledError) - every one of them is a failed attempt
+        failure_kinds = sim.draw_bool(0.6, "failure_kinds")
+        # what the endpoint's canceller does when its Deferred is cancelled (by the service's stop or by the endpoint):
+        # nothing (the Deferred fails itself with CancelledError), or errback with the exception real endpoints use
+        cancel_style = sim.draw_choice(["silent", "connecting-cancelled", "cancelled"], "cancel_style")
+        judge_unstarted = sim.draw_bool(JUDGE_STOP_BEFORE_START_P, "judge_stop_before_start")
     cfg = {"prepare_mode": prepare_mode, "nops": nops, "avoid_known": avoid, "close_on_reject": close_on_reject, "reentrant": reentrant,
            "delays": delays, "callback_restart": callback_restart}
     if extended:
         cfg["app_raises"] = app_raises
+        cfg["failure_kinds"] = failure_kinds
+        cfg["cancel_style"] = cancel_style
+        cfg["judge_stop_before_start"] = judge_unstarted
         if companion_delays is not None:
             cfg["companion_delays"] = companion_delays
     sim.config = cfg
@@ -291,6 +333,8 @@ def _service(sim, cfg, delays, factory, tag):
     """One real ClientService with its own endpoint, retry table and history model."""
     prepare_mode, avoid, close_on_reject = cfg["prepare_mode"], cfg["avoid_known"], cfg["close_on_reject"]
     reentrant, callback_restart, app_raises = cfg["reentrant"], cfg["callback_restart"], cfg.get("app_raises", False)
+    failure_kinds, cancel_style = cfg.get("failure_kinds", False), cfg.get("cancel_style", "silent")
+    judge_unstarted = cfg.get("judge_stop_before_start", False)
     event = sim.event if not tag else (lambda *fields: sim.event("service" + tag, *fields))
     clk = sim.clock
     asked = []
@@ -345,9 +389,20 @@ def _service(sim, cfg, delays, factory, tag):
             sim.check("retry-waits", not pend, "connect", lambda: "endpoint.connect() at t=%s while a retry timer is still pending for t=%s" % (clk.seconds(), pend[0].getTime()))
 
             def cancelled(d):
-                event("attempt-cancelled", a.idx)
-                sim.fault("attempt_cancelled_by_stop")
-                a.state = "cancelled"
+                if m.get("giving_up") is a:
+                    # the endpoint itself abandons its attempt (op_attempt); the service did not ask for this
+                    event("attempt-abandoned", a.idx)
+                else:
+                    event("attempt-cancelled", a.idx)
+                    sim.fault("attempt_cancelled_by_stop")
+                    a.state = "cancelled"
+                if cancel_style != "silent":
+                    sim.probe("canceller_errbacks")
+                    exc = (error.ConnectingCancelledError(IPv4Address("TCP", "10.0.0.9", 9)) if cancel_style == "connecting-cancelled"
+                                          else defer.CancelledError())
+                    if m.get("giving_up") is a:
+                        m["last_exc"] = exc
+                    d.errback(Failure(exc))
             a.d = defer.Deferred(cancelled)
             attempts.append(a)
             check_single("connect()")
@@ -393,6 +448,7 @@ def _service(sim, cfg, delays, factory, tag):
         if not m["running"]:
             return
         m["await_timer"] = "unscheduled"
+        m["last_exc"] = exc
         for w in waiters:
             if not w.results and w.remaining is not None:
                 w.remaining -= 1
@@ -410,20 +466,21 @@ def _service(sim, cfg, delays, factory, tag):
             established(conn)
             return "ignored"
         if kind == "fail":
-            reject(conn)
-            raise RuntimeError("rejected by prepareConnection")
+            exc = RuntimeError("rejected by prepareConnection")
+            reject(conn, exc)
+            raise exc
         conn.prepare = "pending"
         conn.pd = defer.Deferred()
         sim.probe("prepare_deferred")
         return conn.pd
 
-    def reject(conn):
+    def reject(conn, exc):
         conn.prepare = "failed"
         sim.fault("prepare_rejected")
         if close_on_reject:
             conn.hook_closed = True
             conn.app.transport.loseConnection()
-        chain_failed(None)
+        chain_failed(exc)
 
     svc = ClientService(Endpoint(), factory, retryPolicy=policy, clock=RecordingClock(clk, on_sched),
                         prepareConnection=None if prepare_mode == "none" else hook)
@@ -443,12 +500,21 @@ def _service(sim, cfg, delays, factory, tag):
                 return None
             stale_guard("a whenConnected Deferred fired")
             if isinstance(res, Failure):
-                if res.check(defer.CancelledError):
+                last = m.get("last_exc")
+                at_limit = w.remaining is not None and w.remaining <= 0
+                # the failure of the attempt that used up the limit (GAVE_UP: a CancelledError made by the abandoned Deferred itself)
+                the_attempts = res.value is last or (last is GAVE_UP and res.type is defer.CancelledError)
+                if res.check(defer.CancelledError) and not (at_limit and the_attempts):
                     # (a callback that ran earlier in the same cascade may already have started the service again)
                     sim.check("waiter-result", not m["running"] or m.get("restarted_in_callback"), "cancelled-while-running", "whenConnected #%d failed with CancelledError while the service is running" % w.idx)
                 else:
-                    sim.check("waiter-result", w.remaining is not None and w.remaining <= 0, "early-failure",
+                    sim.check("waiter-result", at_limit, "early-failure",
                               "whenConnected #%d (failAfterFailures left %r) failed with %s" % (w.idx, w.remaining, res.type.__name__))
+                    sim.check("waiter-result", the_attempts, "not-the-failed-attempts-failure",
+                              lambda: "whenConnected #%d failed with a %s that is not the failure of the attempt that used up its limit (%s)"
+                              % (w.idx, res.type.__name__, "CancelledError" if last is GAVE_UP else type(last).__name__))
+                    if res.check(defer.CancelledError):
+                        sim.probe("limit_reached_by_abandoned_attempt")
             else:
                 c = current_established()
                 sim.check("waiter-result", c is not None and res is c.app, "not-current-protocol", "whenConnected #%d fired with %r" % (w.idx, type(res).__name__))
@@ -569,6 +635,13 @@ def _service(sim, cfg, delays, factory, tag):
         m["running"] = False
         m["restart_pending"] = False
         m["await_timer"] = None
+        if not m["ever_started"] and any(not w.results for w in waiters):
+            # stopService() on a service that was never started, with whenConnected Deferreds outstanding
+            sim.probe("stop_before_first_start_with_waiter")
+            if judge_unstarted:
+                for w in waiters:
+                    if not w.results:
+                        w.must = w.must or "stopped-before-start"
         s = Stop(len(stops), lv)
         stops.append(s)
         outer, m["inside"] = m.get("inside"), "stopService"
@@ -609,11 +682,30 @@ def _service(sim, cfg, delays, factory, tag):
                 established(conn)
             guarded("attempt-callback", a.d.callback, proxy)
         else:
-            event("attempt-fails", a.idx)
+            kind = "refused"
+            if failure_kinds:
+                kind = sim.draw_weighted([("refused", 3), ("gives-up", 3), ("cancelled-error", 2), ("dns", 1), ("timeout", 1),
+                                          ("connecting-cancelled", 1), ("application-defined", 1)], "failure_kind")
+            event("attempt-fails", a.idx, kind)
             sim.fault("attempt_failed")
+            if kind != "refused":
+                sim.probe("attempt_failed_" + kind.replace("-", "_"))
             a.state = "failed"
-            chain_failed(None)
-            guarded("attempt-errback", a.d.errback, Failure(error.ConnectionRefusedError()))
+            if kind == "gives-up":
+                # the endpoint abandons its own attempt: it cancels the Deferred it handed out (nobody stopped the service)
+                sim.fault("attempt_abandoned_by_endpoint")
+                chain_failed(GAVE_UP)
+                m["giving_up"] = a
+                try:
+                    guarded("attempt-abandon", a.d.cancel)
+                finally:
+                    m["giving_up"] = None
+            else:
+                exc = {"refused": error.ConnectionRefusedError, "cancelled-error": defer.CancelledError, "dns": error.DNSLookupError,
+                       "timeout": error.TimeoutError, "application-defined": EndpointError,
+                       "connecting-cancelled": lambda: error.ConnectingCancelledError(IPv4Address("TCP", "10.0.0.9", 9))}[kind]()
+                chain_failed(exc)
+                guarded("attempt-errback", a.d.errback, Failure(exc))
 
     def op_prepare(conn):
         ok = True if avoid else not sim.draw_bool(0.4, "prepare_fails")
@@ -629,8 +721,9 @@ def _service(sim, cfg, delays, factory, tag):
                 established(conn)
             guarded("prepare-callback", d.callback, None)
         else:
-            reject(conn)
-            guarded("prepare-errback", d.errback, Failure(RuntimeError("rejected later")))
+            exc = RuntimeError("rejected later")
+            reject(conn, exc)
+            guarded("prepare-errback", d.errback, Failure(exc))
 
     def op_lost(conn, why):
         event("connection-lost", conn.idx, why, conn.status())
@@ -725,7 +818,7 @@ def _service(sim, cfg, delays, factory, tag):
 
 
 MUTANTS = [
-    '(all run with VERIF_C58_AVOID_KNOWN=1 so that the known prepareConnection defects do not end the runs first)',
+    '(all run with the module knob AVOID_KNOWN_ALWAYS = True so that the known prepareConnection defects do not end the runs first)',
     "_client_service.py waitForRetry: 's.failedAttempts += 1' -> '= 1': CAUGHT retry-delay",
     "_client_service.py rememberConnection: 's.failedAttempts = 0' removed: CAUGHT retry-delay",
     "_client_service.py Waiting.stop: 'futureRetry.cancel()' removed: CAUGHT no-stray-retry",
@@ -742,4 +835,12 @@ MUTANTS = [
     "machine only after the application's connectionLost returned normally (try/finally flattened): CAUGHT makes-progress:idle / stop-fires / waiter-in-time:stopped; "
     "attemptConnection caches the _DisconnectFactory per application factory in the machine builder's closure (second service's losses reach the first "
     "service's machine): CAUGHT makes-progress:idle / stop-fires / waiter-in-time:stopped",
+    "round 6 (ways an attempt fails, endpoint abandoning its own attempt, canceller styles): failedWhenConnecting returns early for failure.check(CancelledError) "
+    "(abandoned attempts not counted against failAfterFailures): CAUGHT waiter-in-time:failure-limit; failedWhenConnecting fires the ready waiters with a "
+    "fresh Failure(ConnectionRefusedError()) instead of the attempt's failure: CAUGHT waiter-result:not-the-failed-attempts-failure",
+    "GENUINE DEFECT of the tree as first examined, REPAIRED in /repo edc5991 (judged in the JUDGE_STOP_BEFORE_START_P = 0.25 share of the extended runs; 0 only for dev-time "
+    "comparison): whenConnected() on a never-started service followed by stopService(): "
+    "immediateStop (Init -> Stopped) did not call cancelConnectWaiters(), the Deferred stayed pending although the stop completed (a whenConnected() "
+    "issued right after fails at once with CancelledError): waiter-in-time:stopped-before-start, replay replays/C58_10138165_61.json; repair: "
+    "'s.cancelConnectWaiters()' added to immediateStop - the check holds with the knob at 0.5",
 ]
